@@ -18,6 +18,8 @@ import (
 type Step struct {
 	Name string `json:"name"`
 	Arg  int    `json:"arg"`
+	C    int    `json:"c"` // SubmitSw/FetchOkSw: the stop request swallowed (1 deployment closed, 2 provider shutdown)
+	K    int    `json:"k"` // SubmitSw/FetchOkSw: the hostname check (ordinal within the iteration) that swallows it
 }
 
 // Script is one behaviour to replay.
@@ -46,6 +48,8 @@ type Rec struct {
 	I       int             `json:"i"`
 	Name    string          `json:"name"`
 	Arg     int             `json:"arg"`
+	C       int             `json:"c"`
+	K       int             `json:"k"`
 	St      StateRec        `json:"st"`
 	Sends   [][]interface{} `json:"sends"`   // replies written by the manager in this step (hooks): [r, kind]
 	Rets    [][]interface{} `json:"rets"`    // Submit calls that returned in this step: [r, kind]
@@ -290,7 +294,7 @@ func (r *runner) awaitFetch() bool {
 
 // do executes one step on the real service; returns false if the script must be abandoned.
 func (r *runner) do(i int, s Step) (*Rec, bool) {
-	rec := &Rec{E: "step", Script: r.script, I: i, Name: s.Name, Arg: s.Arg, Sends: [][]interface{}{}, Rets: [][]interface{}{},
+	rec := &Rec{E: "step", Script: r.script, I: i, Name: s.Name, Arg: s.Arg, C: s.C, K: s.K, Sends: [][]interface{}{}, Rets: [][]interface{}{},
 		Ann: [][2]int{}, AnnHook: [][2]int{}, Missing: []int{}, Errs: []string{}}
 	r.rec = rec
 	r.seen = map[string]int{}
@@ -356,6 +360,56 @@ func (r *runner) do(i int, s Step) (*Rec, bool) {
 			if !r.await(func() bool { return len(rec.Sends) > 0 && r.itersDone() }) {
 				return fail("reply of a stopping manager")
 			}
+		}
+	case "SubmitSw", "FetchOkSw":
+		// the manager is made to wait in its K-th hostname check of this iteration; the stop request arrives; the
+		// check's select has nothing else to take
+		held := e.hosts.arm(s.K)
+		hook := "manifest"
+		if s.Name == "SubmitSw" {
+			r.nsub++
+			r.curReq = r.nsub
+			r.sub[r.curReq] = s.Arg
+			r.open[r.curReq] = true
+			r.itersWant++
+			e.submit(r.curReq, s.Arg)
+		} else {
+			hook = "fetch-ok"
+			if !r.awaitFetch() {
+				e.hosts.disarm()
+				return fail("chain query start")
+			}
+			c := r.fetch
+			r.fetch = nil
+			c.release <- fetchResult{version: s.Arg}
+		}
+		select {
+		case <-held:
+		case <-time.After(r.stepTO):
+			e.hosts.disarm()
+			return fail("hostname check to hold")
+		}
+		if s.C == 1 {
+			_ = r.publish(dtypes.EventDeploymentClosed{ID: e.did})
+		} else {
+			e.cancel()
+		}
+		done := r.await(func() bool {
+			if r.seen["mgr:"+hook] == 0 {
+				return false
+			}
+			if s.C == 1 {
+				return r.itersDone()
+			}
+			return r.seen["svc:shutdown"] > 0
+		})
+		e.hosts.disarm()
+		if !done {
+			return fail("hook " + hook + " (stop request in the hostname check)")
+		}
+		if s.C == 2 {
+			r.svcDown = true
+			e.zombie = true
 		}
 	case "Update":
 		_ = r.publish(dtypes.EventDeploymentUpdated{ID: e.did, Version: e.fx.hash[s.Arg]})
